@@ -27,7 +27,7 @@ func main() {
 			Opts:   hx.TreeOpts{Unsync: true, Phantom: false, MaxDepth: c.Size(4, 6), MaxKids: 3},
 		}
 		corex.RunReconcileCases(c,
-			func(emit func(string, *core.Entry, *core.Entry, *core.Entry)) {
+			func(emit func(string, *core.Entry, *core.Entry, *core.Entry), raw func(string)) {
 				corex.Triples(c, cfg, emit)
 				// A slice of triples with phantom directories (correspondence only).
 				cfg2 := cfg
